@@ -43,6 +43,16 @@ CHECKS = {
             'All deviations of the pinned tree are classified into 17 narrow, quantitatively checked known-defect families; anything else is fresh.',
             'Decided on the stated menus only; libm of the image; cexp/cpow/cipow/hypot asserted for finite arguments with representable exact '
             'result; ctypes access assumes x86-64 SysV ABI (self-tested in every worker).', 'DESIGN.md section 2, C20'),
+    'C05': ('exploration', 'E1-lattice',
+            'exhaustive lattice of real solver + sensitivity-kernel + heating runs with a refinement ladder (N=240,480,960), two '
+            'independent kernel references (Tobie eq. 33 literal; strain-invariant form with analytic dy1/dr) and a derivative metamorphic leg',
+            'Every element of the stated lattice (7 planet families x l{2,3} x frequency x static/dynamic x tight/natural grid x N ladder) '
+            'satisfies: -Im k equals the kernel integral to max(200/N^2,1e-4) on tight grids (second order measured); the heating shell sum '
+            'equals the global rate; Im k <= 0; the library kernels equal Tobie eq. 33 to rounding on every slice and an analytic-derivative '
+            're-derivation within the measured discretisation error; on an elastic planet dk/dlnK and dk/dlnmu equal the kernel integrals.',
+            'Im K = 0 end-to-end because the solver takes a real K (H_K is checked through dk/dK and at formula level with a complex K); natural '
+            'grids carry a first-order interface-gap term (C03 grid convention) that is part of the tolerance; only gate-admitted cases are asserted; '
+            'only static liquid layers; nothing is claimed off the grid.', 'DESIGN.md section 2, C05 and section 8'),
 }
 
 NOT_APPLICABLE = {}
